@@ -195,6 +195,20 @@ def format_problems(call):
         fmt = const_str(call.func.value)
         args = call.args
     if fmt is None:
+        tmpl = None
+        if d in ('_format',) and call.args:
+            tmpl = call.args[0]
+        elif isinstance(call.func, ast.Attribute) and \
+                call.func.attr == 'format':
+            tmpl = call.func.value
+        if isinstance(tmpl, ast.JoinedStr) and any(
+                isinstance(v, ast.FormattedValue) for v in tmpl.values):
+            vals = [norm(v.value, 30) for v in tmpl.values
+                    if isinstance(v, ast.FormattedValue)]
+            return ['the format template is itself an f-string that '
+                    'interpolates %s: braces in that data are parsed as '
+                    'replacement fields (KeyError / IndexError / ValueError '
+                    'from str.format)' % ', '.join(vals)]
         return []
     for a in args:
         if isinstance(a, ast.Starred):
@@ -250,7 +264,8 @@ def run_format_rule(repo, rep, rr, func_filter):
             fmtcall = dotted(c.func) == '_format' or (
                 isinstance(c.func, ast.Attribute) and
                 c.func.attr == 'format' and
-                const_str(c.func.value) is not None)
+                (const_str(c.func.value) is not None or
+                 isinstance(c.func.value, ast.JoinedStr)))
             if not fmtcall:
                 continue
             ps = format_problems(c)
